@@ -309,8 +309,9 @@ def run(ctx):
            required_actions=["Send", "Transfer", "Deliver", "WireCanon"])
     rc = cat(_RECV_CAT)
     os.environ["WS_CATALOG"] = rc.write(os.path.join(ctx.scratch, "catalog_recv.ndjson"))
-    r = _mc(ctx, "ws", "MC_WsReceiver", "MC_WsReceiverValid.cfg", env={"WS_CATALOG": os.environ["WS_CATALOG"]},
-               overrides=ctx.pick({}, {"MaxDelivered": 1}), required_actions=["SendData", "SendPing", "SendPong", "SendClose"])
+    if not ctx.quick:      # quick: WsReceiver is model-checked by C15 (with violations); the permitted-frames run is thorough-only
+        _mc(ctx, "ws", "MC_WsReceiver", "MC_WsReceiverValid.cfg", env={"WS_CATALOG": os.environ["WS_CATALOG"]},
+            required_actions=["SendData", "SendPing", "SendPong", "SendClose"])
     ctx._phase("mc", t0)
     # 2. codec table: TLC invariants on every row + Tornado's writer + harness plumbing
     t0 = time.time()
@@ -322,7 +323,7 @@ def run(ctx):
     t0 = time.time()
     paths = ctx.gen_paths("ws", "Gen_WsReceiver", "Gen_WsReceiverValid.cfg", overrides={"L": 3})
     ctx.replay(expand_recv(paths, ctx.seed, ctx.pick(1, 2)), recv_replayer, label="s2c")
-    sims = ctx.sim_paths("ws", "Gen_WsReceiver", "Gen_WsReceiverValid.cfg", num=ctx.pick(100, 2000), depth=12,
+    sims = ctx.sim_paths("ws", "Gen_WsReceiver", "Gen_WsReceiverValid.cfg", num=ctx.pick(60, 2000), depth=12,
                          overrides={"L": 12, "PieceKinds": '{"zero", "one", "half", "rest1"}', "CtlLens": "{0, 5, 125}"})
     ctx.replay(expand_recv(sims, ctx.seed, 2), recv_replayer, label="s2c")
     ctx._phase("s2c-recv", t0)
@@ -336,7 +337,7 @@ def run(ctx):
     ctx.cov["exhaustive"] = True
     # 5. code -> spec: random sessions on the real pair, wire frames and deliveries judged by TLC
     t0 = time.time()
-    n = ctx.pick(150, 3000)
+    n = ctx.pick(100, 3000)
     traces = framework.pool_map(random_session, [(i + 1, ctx.seed * 1000003 + i, ctx.pick(14, 30)) for i in range(n)])
     ctx.validate("ws", "Trace_WsChannel", "Trace_WsChannel.cfg", traces, sig_fn=session_sig)
     ctx._phase("c2s", t0)
@@ -344,8 +345,8 @@ def run(ctx):
                                 "zlib as the opaque permessage-deflate codec", "sha1-free content identity: messages compared by bytes"]
     ctx.cov["rule"] = ("codec: header table (fin x rsv x opcode x mask x 12 boundary lengths); receiver: every permitted frame "
                        "sequence of length <= 3 over the boundary catalogue (%s) in hashed role/deflate/segmentation variants; "
-                       "pair: every Send/Transfer sequence of length <= 4 over %d message classes x pieces {1,3} x gap control "
-                       "{none, ping} x segmentation, deflate grid of 7 parameter sets" % (_RECV_CAT, len(cc.by_id)))
+                       "pair: every Send/Transfer sequence of length <= %d over %d message classes x pieces {1,3} x gap control "
+                       "{none, ping} x segmentation, deflate grid of 7 parameter sets + 3 offers the server must decline" % (_RECV_CAT, ctx.pick(3, 4), len(cc.by_id)))
 
 
 def replay(ctx, rec):
